@@ -223,6 +223,10 @@ func metaScenario(sc *metaScn, idx int) {
 			sc.after(sc.do(sc.actor("candidate"), "sub", nil, ""))
 			sc.after(sc.do(own, "setOther", sc.actor("candidate"), "JRWPASDO"))
 			sc.after(sc.do(own, "setOther", sc.actor("member"), "JRWPASDO"))
+			// a transferee bans itself and re-joins without naming a mode: the pending offer must stay pending
+			sc.after(sc.do(sc.actor("candidate"), "setSelf", nil, "N"))
+			sc.after(sc.do(sc.actor("candidate"), "sub", nil, ""))
+			r.Hit("rejoin_with_pending_offer")
 		case 3:
 			sc.after(sc.do(own, "setOther", sc.actor("sharer"), ""))
 			sc.after(sc.do(sc.actor("sharer"), "sub", nil, "JRWPS"))
